@@ -696,29 +696,6 @@ func (w *world) judge(evs []bubble.Event) *Failure {
 	endedByStop := err == nil && seqOf("begin", "L.Done") == 0 && !bodyPanicked
 	{
 		pending := map[string]int{}
-		// ground truth: the rollback reached the SingleOutputChan after it had sent in the section in flight (its
-		// Abort panics then, by contract)
-		cutShort := false
-		if cfg.Mix == "sendchan" {
-			sent := 0
-			for _, e := range evs {
-				if e.Who != "R" || e.Res != "r" {
-					continue
-				}
-				switch e.Op {
-				case "write":
-					if e.Err == "" {
-						sent++
-					}
-				case "commit":
-					sent = 0
-				case "abort":
-					if sent > 0 {
-						cutShort = true
-					}
-				}
-			}
-		}
 		for _, e := range evs {
 			if e.Who != "R" || e.Seq > run1Ret {
 				continue
@@ -733,12 +710,6 @@ func (w *world) judge(evs []bubble.Event) *Failure {
 			case "close":
 				if pending[e.Res] > 0 && endedByStop {
 					return &Failure{"stop-not-at-label-boundary", fmt.Sprintf("Run returned nil after a Stop but resource %s was closed in the middle of a critical section (%d operations neither committed nor aborted)", e.Res, pending[e.Res])}
-				}
-				if pending[e.Res] > 0 && cutShort {
-					// the best-effort rollback was cut short by a resource whose Abort panics (SingleOutputChan after a
-					// send): which of the other resources were rolled back before that depends on Go's map order in
-					// MPCalContext.abort, so it is not judged here
-					continue
 				}
 				if pending[e.Res] > 0 {
 					return &Failure{"closed-mid-section", fmt.Sprintf("the run ended with %v and resource %s was closed in the middle of the critical section in flight (%d operations neither committed nor aborted)", err, e.Res, pending[e.Res])}
